@@ -63,9 +63,10 @@ func run(pass *analysis.Pass) (any, error) {
 		if decl.Recv != nil {
 			kind = "method"
 			var ident *ast.Ident
-			T := decl.Recv.List[0].Type
+			// The receiver type may be parenthesized, e.g. (T), (*T) or *(T).
+			T := ast.Unparen(decl.Recv.List[0].Type)
 			if T_, ok := T.(*ast.StarExpr); ok {
-				T = T_.X
+				T = ast.Unparen(T_.X)
 			}
 			switch T := T.(type) {
 			case *ast.IndexExpr:
